@@ -9,7 +9,7 @@ M=/var/tmp/mrepo
 [ "$(git -C $M rev-parse HEAD)" = "$(git -C /repo rev-parse HEAD)" ] || git -C $M checkout -q --detach "$(git -C /repo rev-parse HEAD)"
 trap 'git -C $M checkout -q -- .; git -C $M clean -fdq' EXIT INT TERM
 git -C $M checkout -q -- .
-git -C $M apply "$(pwd)/seeded/$id/patch.diff" || { echo "$id APPLY-FAILED"; exit 2; }
+P="$(pwd)/seeded/$id/patch.diff"; [ -f "$P" ] || P="$(pwd)/harmless/$id/patch.diff"; git -C $M apply "$P" || { echo "$id APPLY-FAILED"; exit 2; }
 export VERIF_REPO=$M
 for c in "$@"; do
   out=$(bin/check $c 2>&1); rc=$?
